@@ -16,7 +16,7 @@ from mc.harness.http import Integration
 from mc.refmodel.server import typed_eq
 from mc.vloop import VLoop
 
-KINDS = ['aiohttp', 'flask', 'werkzeug']
+KINDS = ['aiohttp', 'flask', 'werkzeug', 'werkzeug-wsgi_app']
 DOCUMENTED = list(REQUEST_CONTENT_TYPES)
 MEDIA = []
 for t in ['application/json', 'application/json-rpc', 'application/jsonrequest']:
@@ -126,7 +126,7 @@ def run_case(case, rec):
     obs = []
     for kind in KINDS:
         log = []
-        if case.get('endpoint') and kind == 'werkzeug':
+        if case.get('endpoint') and kind.startswith('werkzeug'):
             continue
         integ = Integration(kind, case['path'], status_by_error=sfn, endpoint=case.get('endpoint', ''))
         register(integ.dispatcher, log, kind == 'aiohttp')
@@ -161,7 +161,7 @@ def run_case(case, rec):
             rec.outcomes['%s:non-utf8:%s' % (kind, rep.status)] += 1
             continue
         want_doc, want_codes, want_log = twin_answer(kind, text)
-        want_status = 200 if (want_codes is None or sfn is None or kind == 'werkzeug') else sfn(want_codes)
+        want_status = 200 if (want_codes is None or sfn is None or kind.startswith('werkzeug')) else sfn(want_codes)
         rec.nontrivial_n += 1
         if rep.status == 415:
             rec.violation('C18:%s:documented media type refused with 415 (%s)' % (kind, cls), c, expected=want_status, observed=repr(rep))
